@@ -187,6 +187,19 @@ def run(ctx):
         for tag, seq in records_for(enz, role, sig, []):
             subjects.append({"cls": {"kind": "part", "role": role, "enzyme": enz["name"], "sig": sig},
                              "generic": gens.generic_spec(role, enz), "sig": sig, "seq": seq, "tag": "user:" + tag})
+    # a part type declared by subclassing a concrete part type and giving it another signature (a secretion-tag
+    # variant of a coding part, say): the concrete parent is asked first (prime_bases), the child keeps its own
+    for dno in range(12 if ctx.quick else 120):
+        enz = byname[rng.choice(["BsaI", "BpiI", "BsmBI", "SapI", "BbvI"])]
+        role = rng.choice(["module", "vector"])
+        k = enz["ovh"]
+        psig = [gens.rand_dna(rng, k), gens.rand_dna(rng, k)]
+        csig = [gens.rand_dna(rng, k), gens.rand_dna(rng, k)]
+        parent = {"kind": "part", "role": role, "enzyme": enz["name"], "sig": psig, "name": "ParentPart%d" % dno}
+        child = {"kind": "sub", "name": "ChildPart%d" % dno, "parent": parent, "sig": csig}
+        for tag, seq in records_for(enz, role, csig, [psig]):
+            subjects.append({"cls": child, "generic": gens.generic_spec(role, enz), "sig": csig, "seq": seq,
+                             "tag": "derived:" + tag})
     # the same signature and enzyme for a module part and a vector part, asked in one interpreter
     pair_subjects = []
     for _ in range(25 if ctx.quick else 250):
